@@ -1,4 +1,5 @@
 import Tahoe.Happiness.LemmasPlacement2
+import Tahoe.Happiness.Selector
 /-!
 C07 — share placement is complete, respects read-only servers, maximizes spread.
 
@@ -142,5 +143,57 @@ theorem calculate_mappings_closed_form (peers shares : List Nat) (sm : SetMap) (
       shares.map (fun s => (s, (cmgValue (cmGraph peers shares sm)
         (toIndex (reindexItems shares (peers.length + 1)) s)).map (ofIndex (reindexItems peers 1)))) :=
   calculateMappings_eq peers shares sm hp hs
+
+/-! ### The caller: `PeerSelector` as a state machine (`Tahoe/Happiness/Selector.lean`)
+
+The specification of `get_share_placements()`: whatever sequence of `add_peer`,
+`add_peer_with_share`, `mark_readonly_peer`, `mark_bad_peer` and earlier
+`get_share_placements()` calls came before, the plan returned is `share_placement` of the
+selector's *current* knowledge.  (A selector that remembers an earlier plan across a
+`mark_readonly_peer` breaks this; the harness compares every plan of random histories on the real
+`PeerSelector` with `SelState.run`.) -/
+
+/-- the outputs of a history extended by one operation -/
+theorem run_append (cfg : Cfg) (s : SelState) (pre : List SelOp) (op : SelOp) :
+    s.run cfg (pre ++ [op]) = s.run cfg pre ++ [(s.after pre).out cfg op] := by
+  induction pre generalizing s with
+  | nil => simp [SelState.run, SelState.after]
+  | cons a rest ih => simp [SelState.run, SelState.after, ih]
+
+/-- **plan_is_fresh**: after any history the plan returned is `share_placement` of the current state -/
+theorem plan_is_fresh (cfg : Cfg) (s : SelState) (pre : List SelOp) :
+    s.run cfg (pre ++ [SelOp.getPlacements]) = s.run cfg pre ++ [SelOut.plan ((s.after pre).plan cfg)] :=
+  run_append cfg s pre .getPlacements
+
+/-- earlier `get_share_placements()` calls have no influence on the state a later plan is computed from -/
+theorem state_ignores_gets (s : SelState) (ops : List SelOp) :
+    s.after (ops.filter (fun o => o != SelOp.getPlacements)) = s.after ops := by
+  induction ops generalizing s with
+  | nil => rfl
+  | cons a rest ih =>
+    by_cases h : a = SelOp.getPlacements
+    · subst h; simpa [SelState.after, SelState.next] using ih s
+    · have : (a != SelOp.getPlacements) = true := by simpa using h
+      simp only [List.filter_cons, this, if_true]
+      exact ih (s.next a)
+
+/-- the history of the seeded stale-plan scenario: two writable servers, one share, a plan, server 0
+is demoted to read-only, a second plan: the second plan must move the share to server 1 -/
+theorem demoted_server_loses_its_share :
+    (SelState.init 1).run Cfg.fixed
+      [.addPeer 0, .addPeer 1, .getPlacements, .markReadonly 0, .getPlacements]
+      = [.none, .none, .plan (.ok [(0, 0)]), .none, .plan (.ok [(0, 1)])] := by decide
+
+/-- on states reached by histories the three clauses apply to every returned plan: here the
+read-only clause, for the plan after any history (writable and read-only sets disjoint) -/
+theorem plan_readonly_only_existing (s : SelState) (pre : List SelOp) (res : List (Nat × Nat))
+    (hW : (s.after pre).peers ≠ []) (hdisj : ∀ x ∈ (s.after pre).peers, x ∉ (s.after pre).readonly)
+    (h : (s.after pre).plan Cfg.fixed = .ok res) :
+    ∀ sh p, (sh, p) ∈ res → p ∈ (s.after pre).readonly → ∃ x ∈ (s.after pre).existing, x.1 = p ∧ sh ∈ x.2 :=
+  readonly_only_existing _ _ _ _ res hW hdisj h
+
+example : ((SelState.init 2).after [.addPeer 0, .addPeer 1, .addPeerWithShare 1 0, .markReadonly 1]).peers = [0] ∧
+    ((SelState.init 2).after [.addPeer 0, .addPeer 1, .addPeerWithShare 1 0, .markReadonly 1]).readonly = [1] := by
+  decide
 
 end Tahoe.C07
